@@ -8,6 +8,7 @@ Oracle:   an idealised logger written from the property text (dirty flag for 'up
           'change', FIFO queues for 'streak'/'deck'), evaluated on the file contents the real code produced.
 """
 import os, sys, shutil, atexit, itertools, json, copy
+from collections import deque
 import core
 
 RULES = ["never", "once", "always", "update", "change", "streak", "deck"]
@@ -73,9 +74,11 @@ def p_map(s, cls, pv):
 
 
 def p_val(s):
-    """a field value: atom, U.. tuple, L<elem>,<elem>.. list, D<k>=<atom>,.. dict, Q<k>=<atom>,.. ioflo odict"""
+    """a field value: atom, U.. tuple, L<elem>,<elem>.. list, K<elem>,.. collections.deque, D<k>=<atom>,.. dict, Q<k>=<atom>,.. ioflo odict"""
     if s[0] == "L":
         return [p_elem(x) for x in s[1:].split(",")] if len(s) > 1 else []
+    if s[0] == "K":
+        return deque(p_elem(x) for x in s[1:].split(",")) if len(s) > 1 else deque()
     if s[0] == "U":
         return tuple(p_plus(s[1:]))
     if s[0] == "D":
@@ -209,10 +212,10 @@ class Spec:
                     f = fs[0] if fs else (list(data.keys())[0] if data else None)
                     if data and f is not None and f in data:
                         # every queued element is logged exactly once, as the text of that ONE element
-                        if isinstance(data[f], list):
+                        if isinstance(data[f], (list, deque)):       # FIFO: left / first to right / last
                             for el in data[f]:
                                 log["recs"].append(self.stamp_text(self.stamp) + "\t" + str(el))
-                            del data[f][:]           # emptied IN PLACE: it stays the producer's object
+                            data[f].clear()          # emptied IN PLACE: it stays the producer's object
                         elif isinstance(data[f], dict):      # a mapping queue holds (key, value) items
                             for k, v in data[f].items():
                                 log["recs"].append(self.stamp_text(self.stamp) + "\t" + str((k, v)))
@@ -258,7 +261,7 @@ class Spec:
                         log["dirty"] = True
         elif k == "append":
             d = self.share(int(w[1]))["data"]
-            if isinstance(d.get(w[2]), list):
+            if isinstance(d.get(w[2]), (list, deque)):
                 d[w[2]].append(p_elem(w[3]))
         elif k == "setitem":
             d = self.share(int(w[1]))["data"]
@@ -266,10 +269,10 @@ class Spec:
                 d[w[2]][w[3]] = p_atom(w[4])
         elif k == "hold":                 # ref = share[f], taken once
             v = self.share(int(w[1]))["data"].get(w[2])
-            self.refs.append((int(w[1]), w[2], v) if isinstance(v, (list, dict)) else None)
+            self.refs.append((int(w[1]), w[2], v) if isinstance(v, (list, deque, dict)) else None)
         elif k == "happend":
             r = self.refs[int(w[1])] if int(w[1]) < len(self.refs) else None
-            if r is not None and isinstance(r[2], list):
+            if r is not None and isinstance(r[2], (list, deque)):
                 r[2].append(p_elem(w[2]))
         elif k == "hsetitem":
             r = self.refs[int(w[1])] if int(w[1]) < len(self.refs) else None
@@ -357,11 +360,12 @@ class CHECK(core.Check):
     N_SEARCH = 1500
     RULE = ("histories: 1-3 shares + a queue share, 1-4 logs (every rule; field selections: default-all / subset / "
             "absent field; one to three loggees), ticks with writes placed before and after the logger run of the tick, "
-            "producers that fetch the queue object (list / dict / odict field value, the share's deck) ONCE and append "
+            "producers that fetch the queue object (list / deque / dict / odict field value, the share's deck) ONCE and append "
             "through it across runs next to producers that go through the share each time, references gone stale "
             "because the producer rebound the field, a probe after every run (held object `is` the field value, its "
             "length), START re-sent to a running logger, same-value and unstamped writes, in-place list appends and mapping item assignments, values = int/bool/None/str, "
-            "tuples of length 0-3, lists of atoms/tuples/lists, dict and odict; streak queues that are lists of such "
+            "tuples of length 0-3, lists and collections.deques of atoms/tuples/lists, dict and odict; streak queues that are "
+            "lists or deques of such "
             "elements or mapping-valued (dict/odict), deck entries with tuple/list-valued fields and non-mapping entries "
             "(None, falsy, tuples, lists), logger periods 1-3 ticks, restarts with writes while "
             "stopped, optional None store stamp, pre-existing files; every 6th case from a malformed stream (controls "
@@ -370,9 +374,9 @@ class CHECK(core.Check):
             "over {append x2, push mapping, push non-mapping, advance, run} for streak+deck, of length <= 2 / <= 4 over "
             "{append of a 0/1/2/3-tuple and of a nested list, push of a tuple-valued mapping, advance, run} and over "
             "{three item assignments, advance, run} on an odict and a dict queue, of length <= 2 / <= 3 over {write of a "
-            "0/1/2-tuple and an int, advance, run} for always/update/change, of length <= 2 / <= 4 over {append / item "
+            "0/1/2-tuple and an int, advance, run} for always/update/change, of length <= 2 / <= 3-4 over {append / item "
             "assignment through a held reference and through the share, push through a held deck, rebinding the queue "
-            "field, taking a new reference, advance, run+probe} on a list and an odict queue; non-trivial = some log "
+            "field, taking a new reference, advance, run+probe} on a list, a deque and an odict queue; non-trivial = some log "
             "wrote a record; distinct by case content")
     TRUSTED = ["correspondence: real ioflo House/Store/Share/Logger/Log objects writing under /verif/.scratch/log/<pid> vs "
                "the Lean driver 'logrules' on the same history; per-control outcome (ok / exception name) and the final "
@@ -388,9 +392,10 @@ class CHECK(core.Check):
                "stamped write to a loggee after the log already logged at the same store stamp (region "
                "Ioflo.LogRules.lateWrite, known finding D12); C22_update_counterexample proves the full statement false",
                "C22_streak_fifo_once: for a streak log whose field list names the queue field and histories that only "
-               "append to it (no write/poke of that field), elements being atoms, tuples or lists; C22_streak_mapping_once: "
+               "append to it (no write/poke of that field) - a list or a deque - elements being atoms, tuples or lists; C22_streak_mapping_once: "
                "one run on a mapping-valued queue logs every (key, value) item once in insertion order and empties it "
-               "(a per-run statement; histories of item assignments are covered by the correspondence); default-field "
+               "and C22_streak_mapping_history lifts it to whole histories (item assignments through the share or a live "
+               "reference between runs; reference queue mapQueue); default-field "
                "streaks and non-queue values (logged on every run) are covered by the correspondence only",
                "the rule theorems are about a logger with ONE log (S1); C22_logs_independent carries them to loggers "
                "with any number of logs whose rules do not drain a queue (never/once/always/update/change); loggers "
@@ -399,9 +404,10 @@ class CHECK(core.Check):
                "first record (not generated, not covered)",
                "object identity is modelled for the references a producer takes of a list / mapping field value (Held: live "
                "or orphaned) and the deck; C22_run_keeps_held_objects: a logger run leaves every reference as it was (the "
-               "queue is emptied in place); deques are not modelled",
+               "queue is emptied in place); C22_held_refs_stay_live: over a whole history that does not rebind the field "
+               "every reference to it stays live",
                "not modelled: field deletion from a share, binary logs, IOError on open, floats, containers nested deeper "
-               "than two levels or with non-string mapping keys, deques, rotation (C23)"]
+               "than two levels or with non-string mapping keys, deque.appendleft / maxlen, rotation (C23)"]
     TECHNIQUE = ("Lean 4 theorems by induction over histories with invariants: refinement of an idealised logger "
                  "(dirty flag / last logged values) for update and change, conservation laws for streak and deck, "
                  "counting for once/always, a file-shape invariant for the header; + differential correspondence "
@@ -508,7 +514,7 @@ class CHECK(core.Check):
                 out.append("ok")
             elif k == "append":
                 sh = share(int(w[1]))
-                if isinstance(sh.get(w[2]), list):
+                if isinstance(sh.get(w[2]), (list, deque)):
                     sh[w[2]].append(p_elem(w[3]))
                 out.append("ok")
             elif k == "setitem":
@@ -522,11 +528,11 @@ class CHECK(core.Check):
             elif k == "hold":
                 sh = share(int(w[1]))
                 v = sh[w[2]] if w[2] in sh else None
-                refs.append((sh, w[2], v) if isinstance(v, (list, dict)) else None)
+                refs.append((sh, w[2], v) if isinstance(v, (list, deque, dict)) else None)
                 out.append("ok")
             elif k == "happend":
                 r = refs[int(w[1])] if int(w[1]) < len(refs) else None
-                if r is not None and isinstance(r[2], list):
+                if r is not None and isinstance(r[2], (list, deque)):
                     r[2].append(p_elem(w[2]))
                 out.append("ok")
             elif k == "hsetitem":
@@ -694,7 +700,7 @@ class CHECK(core.Check):
         if r < 0.80 or not lists:
             return "s" + rng.choice(["x", "y", "ab"])
         if r < 0.88:
-            return "L" + ",".join(self.gen_elem(rng) for _ in range(rng.randrange(3)))
+            return rng.choice("LLLK") + ",".join(self.gen_elem(rng) for _ in range(rng.randrange(3)))
         if r < 0.95:
             return self.gen_tuple(rng)
         return self.gen_mapping(rng)
@@ -724,7 +730,7 @@ class CHECK(core.Check):
         """initial / replacement content of the queue field: a list of elements or a mapping"""
         if rng.random() < 0.3:
             return self.gen_mapping(rng)
-        return "L" + ",".join(self.gen_elem(rng) for _ in range(rng.randrange(4)))
+        return rng.choice("LLK") + ",".join(self.gen_elem(rng) for _ in range(rng.randrange(4)))
 
     def gen_entry(self, rng):
         """a deck entry: mostly mappings (also the empty one), else None / falsy and other non-mappings"""
@@ -835,7 +841,7 @@ class CHECK(core.Check):
                     ops.append("setitem %d %s %s %s" % (sid, f, rng.choice(["k", "m"]), self.gen_atom(rng)))
                 elif r < 0.88:
                     ops.append("%s %d q %s" % (rng.choice(["poke", "write"]), QS,
-                                              rng.choice(["L", "Li1,i2", "i5", "sx", "Ui1+i2", "U", "D", "Qk=i1",
+                                              rng.choice(["L", "Li1,i2", "i5", "sx", "Ui1+i2", "U", "D", "Qk=i1", "K", "Ki1,Ui2",
                                                           self.gen_queue(rng)])))
                     if rng.random() < 0.5:        # the producer takes the new object (the old reference is stale)
                         hold(QS, "q")
@@ -916,9 +922,9 @@ class CHECK(core.Check):
         # a producer that keeps the queue object it fetched once (list, odict, the deck), next to one that goes
         # through the share; the producer may also rebind the field itself (then its old reference is stale)
         ha = [["happend 0 i1"], ["hsetitem 0 k i1"], ["append 3 q i2"], ["setitem 3 q m i2"], ["hpush 3 Mp=i3"],
-              ["poke 3 q L"], ["hold 3 q"], ["adv 1"], ["ctl run", "probe", "dprobe 3"]]
-        for q0 in ("Li0", "Qa=i0"):
-            for n in range((4 if tier == "thorough" else 2) + 1):
+              ["poke 3 q K"], ["hold 3 q"], ["adv 1"], ["ctl run", "probe", "dprobe 3"]]
+        for q0 in ("Li0", "Ki0", "Qa=i0"):
+            for n in range(((4 if q0 == "Li0" else 3) if tier == "thorough" else 2) + 1):
                 for seq in itertools.product(ha, repeat=n):
                     yield {"kind": "exh", "logs": [{"rule": "streak", "base": "s", "old": None, "loggees": [["x", 3, ["q"]]]},
                                                    {"rule": "deck", "base": "d", "old": None, "loggees": [["x", 3, ["p"]]]}],
